@@ -16,6 +16,7 @@ write, `run()` started the loops and an open frame got a handler.
 -/
 import SpecVerif.Mpx.Handshake
 import SpecVerif.PinnedMpx
+import SpecVerif.Mpx.Frame
 namespace SpecVerif.C11
 open SpecVerif.Mpx.Handshake
 
@@ -107,5 +108,124 @@ def unrepairedHandshake (line : String) (first : First) : Outcome :=
 theorem unrepaired_refusal_served :
     unrepairedHandshake SpecVerif.Pinned.protocolLine (.request [] []) = .serve false ∧
     (serveFrames ⟨[], 0, 0⟩ [.open_ 7]).handlers = 1 := by decide
+
+/-! ### the protocol line is read with a bound (F25) -/
+
+/-- readLine never consumes more than `max` bytes, whatever the peer sends -/
+theorem line_bounded (max : Nat) (s l : List UInt8) (h : takeLine max s = some l) :
+    l.length ≤ max ∧ l = s.take l.length := by
+  induction max generalizing s l with
+  | zero => simp [takeLine] at h; subst h; simp
+  | succ n ih =>
+    cases s with
+    | nil => simp [takeLine] at h
+    | cons c s =>
+      simp only [takeLine] at h
+      split at h
+      · cases h; simp
+      · cases hr : takeLine n s with
+        | none => simp [hr] at h
+        | some l' =>
+          simp [hr] at h; subst h
+          have := ih s l' hr
+          simp only [List.length_cons, List.take_succ_cons]
+          exact ⟨by omega, by rw [← this.2]⟩
+
+/-- a peer whose first bytes are a line without an inner line feed (the protocol line is one) gets
+exactly that line back, whatever follows it -/
+theorem line_accepts (pl rest : List UInt8) (h : ∀ c ∈ pl, c ≠ 10) :
+    takeLine (pl.length + 1) (pl ++ 10 :: rest) = some (pl ++ [10]) := by
+  induction pl with
+  | nil => simp [takeLine]
+  | cons c pl ih =>
+    have hc : c ≠ 10 := h c (by simp)
+    simp only [List.length_cons, List.cons_append, takeLine, if_neg hc]
+    rw [ih (fun x hx => h x (by simp [hx]))]
+    rfl
+
+/-- once `max` bytes have arrived the line check is decided: the peer cannot keep the server
+waiting for a terminator (with `line_bounded`: after at most len(ProtocolLine) bytes) -/
+theorem line_decided (max : Nat) (s : List UInt8) (hs : max ≤ s.length) : ∃ l, takeLine max s = some l := by
+  induction max generalizing s with
+  | zero => exact ⟨[], rfl⟩
+  | succ n ih =>
+    cases s with
+    | nil => simp at hs
+    | cons c s =>
+      simp only [takeLine]
+      split
+      · exact ⟨_, rfl⟩
+      · obtain ⟨l, hl⟩ := ih s (by simpa using hs)
+        exact ⟨c :: l, by simp [hl]⟩
+
+/-! ### oversized frames: the announced size alone allocates nothing beyond one chunk (F24) -/
+open SpecVerif.Mpx.Frame in
+/-- chunked reading returns exactly the announced bytes: same result as one ReadFull of `rem` bytes -/
+theorem chunked_read_same (c : Nat) (hc : 0 < c) (fuel rem : Nat) (s : Bytes) (hf : rem ≤ fuel)
+    (hs : rem ≤ s.length) : readChunks c fuel rem s = some (s.take rem, s.drop rem) := by
+  induction fuel generalizing rem s with
+  | zero =>
+    have : rem = 0 := by omega
+    subst this; simp [readChunks]
+  | succ fuel ih =>
+    cases rem with
+    | zero => simp [readChunks]
+    | succ rem =>
+      simp only [readChunks]
+      have hn : min (rem + 1) c ≤ rem + 1 := Nat.min_le_left _ _
+      have hn0 : 0 < min (rem + 1) c := by omega
+      have h1 : ¬ s.length < min (rem + 1) c := by omega
+      rw [if_neg h1]
+      rw [ih (rem + 1 - min (rem + 1) c) (s.drop (min (rem + 1) c)) (by omega) (by simp; omega)]
+      generalize min (rem + 1) c = n at *
+      have e : rem + 1 = n + (rem + 1 - n) := by omega
+      have t : s.take (rem + 1) = s.take n ++ (s.drop n).take (rem + 1 - n) := by
+        conv => lhs; rw [e]
+        exact List.take_add
+      have d : s.drop (rem + 1) = (s.drop n).drop (rem + 1 - n) := by
+        rw [List.drop_drop]
+        congr 1
+      rw [t, d]
+
+open SpecVerif.Mpx.Frame in
+/-- a truncated frame is never a message, however it is chunked -/
+theorem chunked_read_short (c : Nat) (_hc : 0 < c) (fuel rem : Nat) (s : Bytes) (hs : s.length < rem) :
+    readChunks c fuel rem s = none := by
+  induction fuel generalizing rem s with
+  | zero => cases rem with
+    | zero => omega
+    | succ rem => simp [readChunks]
+  | succ fuel ih =>
+    cases rem with
+    | zero => omega
+    | succ rem =>
+      simp only [readChunks]
+      split
+      · rfl
+      · rename_i h1
+        have hn : min (rem + 1) c ≤ rem + 1 := Nat.min_le_left _ _
+        rw [ih (rem + 1 - min (rem + 1) c) (s.drop (min (rem + 1) c)) (by simp; omega)]
+
+open SpecVerif.Mpx.Frame in
+/-- whatever size a peer announces, the reader never holds more than one chunk beyond the bytes
+the peer actually delivered -/
+theorem alloc_bounded (c fuel rem avail : Nat) : allocated c fuel rem avail ≤ avail + c := by
+  induction fuel generalizing rem avail with
+  | zero => cases rem <;> simp [allocated]
+  | succ fuel ih =>
+    cases rem with
+    | zero => simp [allocated]
+    | succ rem =>
+      simp only [allocated]
+      have hn : min (rem + 1) c ≤ c := Nat.min_le_right _ _
+      split
+      · omega
+      · have := ih (rem + 1 - min (rem + 1) c) (avail - min (rem + 1) c)
+        omega
+
+open SpecVerif.Mpx.Frame in
+/-- the unrepaired reader allocated the announced size: 4 bytes from the peer, 4 GiB on the server -/
+example : allocated (2 ^ 32) 1 (2 ^ 32 - 1) 0 = 2 ^ 32 - 1 ∧ allocated (2 ^ 20) (2 ^ 32) (2 ^ 32 - 1) 0 = 2 ^ 20 := by
+  constructor <;> simp [allocated]
 
 end SpecVerif.C11
